@@ -90,9 +90,9 @@ type ScriptCfg struct {
 	Auths []string `json:"auths,omitempty"`
 	// KeyOverride replaces configured keys: paasign | sess | sessenc | userenc -> value ("-" = leave the key out)
 	KeyOverride map[string]string `json:"keyOverride,omitempty"`
-	// SharedEnv: the gateway runs with the home and temporary directories that every other SharedEnv gateway of this
-	// run uses (several gateways on one machine); without it each gateway has directories of its own
-	SharedEnv bool `json:"sharedEnv,omitempty"`
+	// SharedEnv: the gateway runs with the home and temporary directories that every other gateway of this run with the
+	// same SharedEnv value uses (several gateways on one machine); without it each gateway has directories of its own
+	SharedEnv string `json:"sharedEnv,omitempty"` // name of the machine: gateways with the same name share the directories
 }
 
 func (c ScriptCfg) Key() string {
@@ -476,8 +476,8 @@ func (r *Runner) NewInst(cfg ScriptCfg) (*Inst, error) {
 		}
 	}
 	var extraEnv []string
-	if cfg.SharedEnv {
-		shared := filepath.Join(r.Work, "shared-env")
+	if cfg.SharedEnv != "" {
+		shared := filepath.Join(r.Work, "shared-env-"+cfg.SharedEnv)
 		os.MkdirAll(filepath.Join(shared, "tmp"), 0700)
 		extraEnv = []string{"HOME=" + shared, "TMPDIR=" + filepath.Join(shared, "tmp")}
 	}
